@@ -19,6 +19,7 @@ func m3Proto(kind string) m3.Protocol {
 // c15ReporterJobs: message-level fault sequences through the real reporter and generated client.
 func c15ReporterJobs(tier string) []*SeqJob {
 	alphabet := []string{"small a", "small b", "huge", "flush"}
+	deadAlphabet := []string{"small a", "small b", "big"}
 	depth := tierInt(tier, 4, 5)
 	exec := func(kind string, ndest int) func(hist []int) (string, string, string, int) {
 		return func(hist []int) (cl, det, key string, steps int) {
@@ -126,18 +127,24 @@ func c15ReporterJobs(tier string) []*SeqJob {
 			}
 			defer dead.Close()
 			deadAddr := dead.LocalAddr().String()
-			cl, det = guard(func() (string, string) {
-				r, err := m3.NewReporter(m3.Options{HostPorts: []string{deadAddr, good.addr}, Service: "svc", Env: "test", Protocol: m3Proto(kind), MaxQueueSize: 64, MaxPacketSizeBytes: 32768})
+			// (under the controlled scheduler: a panic in the reporter's own goroutine is then a violation with a history
+			// instead of a dead worker)
+			var icl, idet string
+			body := func() (string, string) {
+				r, err := m3.NewReporter(m3.Options{HostPorts: []string{deadAddr, good.addr}, Service: "svc", Env: "test", Protocol: m3Proto(kind), MaxQueueSize: 64, MaxPacketSizeBytes: 65000})
 				if err != nil {
 					return "new-reporter", err.Error()
 				}
 				a := r.AllocateCounter("u.a", map[string]string{"k": "v"})
 				b := r.AllocateGauge("u.b", nil)
+				// a message of 40 KB (it fits a datagram; whatever a transport does with a buffer that has grown that far
+				// must not matter to the messages after a refused send)
+				big := r.AllocateCounter("u.big", map[string]string{"pad": strings.Repeat("p", 40000)})
 				reported := map[string]bool{}
 				n := 0
 				for i, op := range hist {
 					steps++
-					switch alphabet[op] {
+					switch deadAlphabet[op] {
 					case "small a":
 						a.ReportCount(int64(100 + i))
 						reported[fmt.Sprintf("u.a count=%d", 100+i)] = true
@@ -145,6 +152,10 @@ func c15ReporterJobs(tier string) []*SeqJob {
 					case "small b":
 						b.ReportGauge(float64(200 + i))
 						reported[fmt.Sprintf("u.b gauge=%v", float64(200+i))] = true
+						n++
+					case "big":
+						big.ReportCount(int64(300 + i))
+						reported[fmt.Sprintf("u.big count=%d", 300+i)] = true
 						n++
 					case "huge":
 						continue
@@ -159,7 +170,7 @@ func c15ReporterJobs(tier string) []*SeqJob {
 				for i, dg := range dgs {
 					msg, err := decodeMessage(kind, dg)
 					if err != nil || msg.Left != 0 || msg.Name != "emitMetricBatchV2" {
-						return "corrupt-datagram-after-failed-message", fmt.Sprintf("%v [%s, dead first destination]: datagram %d of the healthy destination (%d bytes) is not one complete message: %v", histLabels(alphabet, hist), kind, i, len(dg), err)
+						return "corrupt-datagram-after-failed-message", fmt.Sprintf("%v [%s, dead first destination]: datagram %d of the healthy destination (%d bytes) is not one complete message: %v", histLabels(deadAlphabet, hist), kind, i, len(dg), err)
 					}
 					user := 0
 					for _, m := range msg.Batch.Metrics {
@@ -169,6 +180,8 @@ func c15ReporterJobs(tier string) []*SeqJob {
 							k = fmt.Sprintf("u.a count=%d", m.Value.Count)
 						case "u.b":
 							k = fmt.Sprintf("u.b gauge=%v", m.Value.Gauge)
+						case "u.big":
+							k = fmt.Sprintf("u.big count=%d", m.Value.Count)
 						default:
 							continue
 						}
@@ -179,19 +192,25 @@ func c15ReporterJobs(tier string) []*SeqJob {
 						}
 					}
 					if user > 1 {
-						return "message-not-transmitted-alone", fmt.Sprintf("%v [%s, dead first destination]: datagram %d of the healthy destination carries %d reported values; every flush here follows a single report", histLabels(alphabet, hist), kind, i, user)
+						return "message-not-transmitted-alone", fmt.Sprintf("%v [%s, dead first destination]: datagram %d of the healthy destination carries %d reported values; every flush here follows a single report", histLabels(deadAlphabet, hist), kind, i, user)
 					}
 				}
 				for k, c := range seen {
 					if c > 1 {
-						return "batch-duplicated", fmt.Sprintf("%v [%s, dead first destination]: the healthy destination received %q %d times", histLabels(alphabet, hist), kind, k, c)
+						return "batch-duplicated", fmt.Sprintf("%v [%s, dead first destination]: the healthy destination received %q %d times", histLabels(deadAlphabet, hist), kind, k, c)
 					}
 				}
 				if n >= 3 && len(seen) == 0 {
-					return "reporter-stopped-emitting", fmt.Sprintf("%v [%s, dead first destination]: %d batches reported, none reached the healthy destination", histLabels(alphabet, hist), kind, n)
+					return "reporter-stopped-emitting", fmt.Sprintf("%v [%s, dead first destination]: %d batches reported, none reached the healthy destination", histLabels(deadAlphabet, hist), kind, n)
 				}
 				return "", ""
-			})
+			}
+			ccl, cdet := controlledCase(0, func() { icl, idet = guard(body) })
+			if ccl != "" {
+				cl, det = ccl, fmt.Sprintf("%v [%s, dead first destination]: %s", histLabels(deadAlphabet, hist), kind, cdet)
+			} else {
+				cl, det = icl, idet
+			}
 			key = fmt.Sprint(kind, "dead", hist)
 			return
 		}
@@ -305,10 +324,10 @@ func c15ReporterJobs(tier string) []*SeqJob {
 	}
 	for _, kind := range []string{"compact", "binary"} {
 		kind := kind
-		jd := &SeqJob{Property: "C15", Name: fmt.Sprintf("reporter-message-faults-%s-dead-first-destination", kind), Shards: 4}
-		jd.Run = func(ctx *SeqCtx) { bfs(ctx, alphabet[:2], depth, execDead(kind)) }
+		jd := &SeqJob{Property: "C15", Name: fmt.Sprintf("reporter-message-faults-%s-dead-first-destination", kind), Shards: 4, Controlled: true}
+		jd.Run = func(ctx *SeqCtx) { bfs(ctx, deadAlphabet, depth, execDead(kind)) }
 		jd.Replay = func(ops []string) (string, string) {
-			c, d, _, _ := execDead(kind)(opIndex(alphabet[:2], ops))
+			c, d, _, _ := execDead(kind)(opIndex(deadAlphabet, ops))
 			return c, d
 		}
 		if kind == "compact" || tier == "thorough" {
